@@ -5,6 +5,7 @@ package main
 import (
 	"fmt"
 	"go/token"
+	"regexp"
 	"go/types"
 	"sort"
 	"strings"
@@ -284,7 +285,7 @@ func (x *Exec) assumeAxioms(p *Path) {
 			if !x.usesAxiomPkg(c) {
 				continue
 			}
-			if x.fc != nil && x.fc.NoAxioms[c.Label] {
+			if x.fc != nil && (x.fc.NoAxioms[c.Label] || (x.fc.OnlyAxioms != nil && !x.fc.OnlyAxioms[c.Label])) {
 				continue
 			}
 			d := *ctx
@@ -303,6 +304,9 @@ func (x *Exec) assumeAxioms(p *Path) {
 			if !x.usesAxiomPkg(c) {
 				continue
 			}
+			if x.fc != nil && (x.fc.NoAxioms[c.Label] || (x.fc.OnlyAxioms != nil && !x.fc.OnlyAxioms[c.Label])) {
+				continue
+			}
 			d := *ctx
 			d.pkg = pkgOfFile(x.e, c.File)
 			s, err := d.EvalBool(c.E)
@@ -315,9 +319,12 @@ func (x *Exec) assumeAxioms(p *Path) {
 	}
 }
 
+var qnumRe = regexp.MustCompile(`\.\d+\|`)
+
 func (x *Exec) assumeOnce(p *Path, s string) {
+	n := qnumRe.ReplaceAllString(s, "|")
 	for _, a := range p.assumes {
-		if a == s {
+		if a == s || (len(a) == len(s) && qnumRe.ReplaceAllString(a, "|") == n) || qnumRe.ReplaceAllString(a, "|") == n {
 			return
 		}
 	}
@@ -533,6 +540,11 @@ func (x *Exec) havocLoop(p *Path, fr *FrameState, l *Loop) {
 		}
 		return ok
 	}
+	type deferredElem struct {
+		fa *ssa.FieldAddr
+		et types.Type
+	}
+	var deferred []deferredElem
 	var addrTargets func(a ssa.Value, top bool)
 	addrTargets = func(a ssa.Value, top bool) {
 		switch a := a.(type) {
@@ -570,6 +582,14 @@ func (x *Exec) havocLoop(p *Path, fr *FrameState, l *Loop) {
 				ov := x.val(p, a.X)
 				if ov.K == KSlice || ov.K == KScalar {
 					obj = ov.S
+				}
+			} else if top {
+				// slice re-loaded inside the loop from a field of a loop-invariant object: c.values[i] = ...
+				if u, ok := a.X.(*ssa.UnOp); ok {
+					if fa, ok := u.X.(*ssa.FieldAddr); ok && defined(fa.X) {
+						deferred = append(deferred, deferredElem{fa: fa, et: et})
+						return
+					}
 				}
 			}
 			for _, lf := range x.e.leaves(et) {
@@ -700,6 +720,22 @@ func (x *Exec) havocLoop(p *Path, fr *FrameState, l *Loop) {
 		}
 	}
 	scan(fr.fn, l.Body, true)
+	for _, d := range deferred {
+		st := structOf(d.fa.X.Type())
+		f := st.Field(d.fa.Field)
+		tkey := typeKey(d.fa.X.Type())
+		obj := ""
+		if _, modified := targets[fieldKey(tkey, f.Name(), ".arr")]; !modified {
+			bv := x.val(p, d.fa.X)
+			if bv.K == KScalar {
+				obj = x.e.loadField(p, nil, bv.S, tkey, f.Name(), f.Type()).S
+			}
+		}
+		for _, lf := range x.e.leaves(d.et) {
+			x.e.keySort[elemKey(d.et, lf.Path)] = arrSort("Int", arrSort("Int", lf.Sort))
+			addKey(elemKey(d.et, lf.Path), obj)
+		}
+	}
 	if all {
 		x.havocEverything(p)
 	} else {
